@@ -20,6 +20,13 @@ REPO = "/repo"
 
 # (property, relative file, old text, new text, substring of the unit expected to fail)
 MUTANTS = [
+    ("C31", "unified_planning/engines/compilers/interpreted_functions_remover.py",
+     "            len_start = len(found_fluents_set)\n", "            len_start = len_end\n", "_find_changing_fluents"),
+    ("C31", "unified_planning/engines/compilers/interpreted_functions_remover.py",
+     "                            if f_e.fluent() in found_fluents_set:\n                                found_fluents_set.add(f)\n",
+     "                            if f_e.fluent() in found_fluents_set:\n                                found_fluents_set.add(f_e.fluent())\n", "_find_changing_fluents"),
+    ("C31", "unified_planning/engines/compilers/interpreted_functions_remover.py",
+     "        while len_end > len_start:\n            len_start = len(found_fluents_set)\n", "        while len_end > len_start + 1:\n            len_start = len(found_fluents_set)\n", "_find_changing_fluents"),
     ("C24", "unified_planning/model/transition.py",
      "        up.model.effect.check_conflicting_effects(\n            effect,\n            None,\n            self._simulated_effect,",
      "        self._effects.append(effect)\n        up.model.effect.check_conflicting_effects(\n            effect,\n            None,\n            self._simulated_effect,", "_add_effect_instance"),
